@@ -39,6 +39,17 @@ func NewLens[S, A any](t hseq.Type[S]) Lens[S, A] {
 	panic(fmt.Errorf("invalid type: Lens[%s, %s] not compatible with %s", cat.Name(), ft.Name(), fv.Name()))
 }
 
+// names returns the first n of the given field names. It panics if fewer are
+// given: attr[0:n] alone would silently extend a shorter slice up to its
+// capacity and pick up whatever the backing array holds.
+func names(attr []string, n int) []string {
+	if len(attr) < n {
+		panic(fmt.Errorf("invalid names: %d required, %d given", n, len(attr)))
+	}
+
+	return attr[0:n]
+}
+
 // focusable checks that a field of type ft is located at the offset of the
 // struct cat, following plain and embedded struct values only (a field behind
 // a pointer is not part of the struct's memory).
@@ -133,7 +144,7 @@ func ForProduct2[T, A, B any](attr ...string) (
 	if len(attr) == 0 {
 		seq = hseq.New2[T, A, B]()
 	} else {
-		seq = hseq.New[T](attr[0:2]...)
+		seq = hseq.New[T](names(attr, 2)...)
 	}
 
 	return hseq.FMap2(seq,
@@ -153,7 +164,7 @@ func ForProduct3[T, A, B, C any](attr ...string) (
 	if len(attr) == 0 {
 		seq = hseq.New3[T, A, B, C]()
 	} else {
-		seq = hseq.New[T](attr[0:3]...)
+		seq = hseq.New[T](names(attr, 3)...)
 	}
 
 	return hseq.FMap3(seq,
@@ -175,7 +186,7 @@ func ForProduct4[T, A, B, C, D any](attr ...string) (
 	if len(attr) == 0 {
 		seq = hseq.New4[T, A, B, C, D]()
 	} else {
-		seq = hseq.New[T](attr[0:4]...)
+		seq = hseq.New[T](names(attr, 4)...)
 	}
 
 	return hseq.FMap4(seq,
@@ -199,7 +210,7 @@ func ForProduct5[T, A, B, C, D, E any](attr ...string) (
 	if len(attr) == 0 {
 		seq = hseq.New5[T, A, B, C, D, E]()
 	} else {
-		seq = hseq.New[T](attr[0:5]...)
+		seq = hseq.New[T](names(attr, 5)...)
 	}
 
 	return hseq.FMap5(seq,
@@ -225,7 +236,7 @@ func ForProduct6[T, A, B, C, D, E, F any](attr ...string) (
 	if len(attr) == 0 {
 		seq = hseq.New6[T, A, B, C, D, E, F]()
 	} else {
-		seq = hseq.New[T](attr[0:6]...)
+		seq = hseq.New[T](names(attr, 6)...)
 	}
 
 	return hseq.FMap6(seq,
@@ -253,7 +264,7 @@ func ForProduct7[T, A, B, C, D, E, F, G any](attr ...string) (
 	if len(attr) == 0 {
 		seq = hseq.New7[T, A, B, C, D, E, F, G]()
 	} else {
-		seq = hseq.New[T](attr[0:7]...)
+		seq = hseq.New[T](names(attr, 7)...)
 	}
 
 	return hseq.FMap7(seq,
@@ -283,7 +294,7 @@ func ForProduct8[T, A, B, C, D, E, F, G, H any](attr ...string) (
 	if len(attr) == 0 {
 		seq = hseq.New8[T, A, B, C, D, E, F, G, H]()
 	} else {
-		seq = hseq.New[T](attr[0:8]...)
+		seq = hseq.New[T](names(attr, 8)...)
 	}
 
 	return hseq.FMap8(seq,
@@ -315,7 +326,7 @@ func ForProduct9[T, A, B, C, D, E, F, G, H, I any](attr ...string) (
 	if len(attr) == 0 {
 		seq = hseq.New9[T, A, B, C, D, E, F, G, H, I]()
 	} else {
-		seq = hseq.New[T](attr[0:9]...)
+		seq = hseq.New[T](names(attr, 9)...)
 	}
 
 	return hseq.FMap9(seq,
